@@ -25,6 +25,8 @@ type opVal struct {
 
 func ipt(i int) *int { return &i }
 
+var opsErr = &ugo.Error{Name: "E", Message: "m"}
+
 func opsDomain(thorough bool) []opVal {
 	d := []opVal{
 		{"undef", "undefined", nil, ugo.Undefined},
@@ -45,7 +47,10 @@ func opsDomain(thorough bool) []opVal {
 		{"a_empty", "array", nil, ugo.Array{}}, {"a_i1", "array", nil, ugo.Array{ugo.Int(1)}},
 		{"a_f1", "array", nil, ugo.Array{ugo.Float(1)}}, {"a_u1", "array", nil, ugo.Array{ugo.Uint(1)}},
 		{"m_empty", "map", nil, ugo.Map{}}, {"m_i1", "map", nil, ugo.Map{"k": ugo.Int(1)}}, {"m_f1", "map", nil, ugo.Map{"k": ugo.Float(1)}},
-		{"err", "error", nil, &ugo.Error{Name: "E", Message: "m"}},
+		{"err", "error", nil, opsErr},
+		// a caught error is a runtime error wrapping the thrown one
+		{"rerr", "error", nil, &ugo.RuntimeError{Err: opsErr}}, {"rerrb", "error", nil, &ugo.RuntimeError{Err: opsErr}},
+		{"zde", "error", nil, ugo.ErrZeroDivision}, {"rzde", "error", nil, &ugo.RuntimeError{Err: ugo.ErrZeroDivision}},
 		// integers float64 cannot hold exactly, next to the floats they round to
 		{"i2p53p1", "int", nil, ugo.Int(9007199254740993)}, {"u2p53p1", "uint", nil, ugo.Uint(9007199254740993)}, {"f2p53", "float", nil, ugo.Float(9007199254740992)},
 		{"f2p63", "float", nil, ugo.Float(9223372036854775808)},
